@@ -47,6 +47,9 @@ struct UnitToml {
     /// type implements `vx_store`.  If `x` is an ordinary `&mut T` the rewritten text does not compile => undecided.
     #[serde(default)]
     deref_store: bool,
+    /// R20 (index form): `X[i] = v` -> `X.set(i, v)`
+    #[serde(default)]
+    index_store: bool,
     /// R21: `X.map_or_else(D, |p| B)` becomes `match X { None => D(), Some(p) => B }` (the definition of the std combinator)
     #[serde(default)]
     expand_map_or_else: bool,
@@ -324,11 +327,13 @@ struct Rewriter<'a> {
     rules: BTreeSet<String>,
     keep_derives: BTreeSet<String>,
     deref_store: bool,
+    index_store: bool,
     expand_map_or_else: bool,
     expand_option_combinators: bool,
     chainmap: Vec<(syn::Expr, syn::Expr)>,
     closure_method_map: BTreeMap<String, String>,
     expand_cast_macro: bool,
+    escaping_async_blocks_allowed: usize,
 }
 
 /// chainmap key/value: an expression over metavariables; a text that starts with a method name gets the receiver `__`
@@ -588,6 +593,28 @@ impl<'a> VisitMut for Rewriter<'a> {
             s.asyncness = None;
             self.rules.insert("R7".into());
         }
+        // R7: a function that returns `impl Future<Output = T> [+ ..]` is projected like an async fn: it returns T
+        if !self.async_projection.is_empty() {
+            if let syn::ReturnType::Type(_, ty) = &mut s.output {
+                if let syn::Type::ImplTrait(it) = &**ty {
+                    let mut out_ty: Option<syn::Type> = None;
+                    for b in it.bounds.iter() {
+                        if let syn::TypeParamBound::Trait(tb) = b {
+                            if let Some(seg) = tb.path.segments.last() {
+                                if seg.ident == "Future" {
+                                    if let syn::PathArguments::AngleBracketed(ab) = &seg.arguments {
+                                        for a in ab.args.iter() {
+                                            if let syn::GenericArgument::AssocType(at) = a { if at.ident == "Output" { out_ty = Some(at.ty.clone()); } }
+                                        }
+                                    }
+                                }
+                            }
+                        }
+                    }
+                    if let Some(t) = out_ty { **ty = t; self.rules.insert("R7".into()); self.escaping_async_blocks_allowed += 1; }
+                }
+            }
+        }
         visit_mut::visit_signature_mut(self, s);
     }
 
@@ -762,6 +789,29 @@ impl<'a> VisitMut for Rewriter<'a> {
                 self.rules.insert("R24".into());
             }
         }
+        // R7: an async block is projected to the block itself (evaluated where it stands; its output is the block's value)
+        if !self.async_projection.is_empty() {
+            if let syn::Expr::Async(a) = e {
+                // `?` / `return` inside an async block leave the BLOCK; after projection they would leave the function: only the same
+                // thing when the block is the future the function returns (tail position of an `impl Future` function)
+                struct Esc2(bool);
+                impl<'ast> syn::visit::Visit<'ast> for Esc2 {
+                    fn visit_expr_return(&mut self, _r: &'ast syn::ExprReturn) { self.0 = true; }
+                    fn visit_expr_try(&mut self, _r: &'ast syn::ExprTry) { self.0 = true; }
+                    fn visit_expr_closure(&mut self, _c: &'ast syn::ExprClosure) {}
+                    fn visit_expr_async(&mut self, _c: &'ast syn::ExprAsync) {}
+                }
+                let mut esc = Esc2(false);
+                syn::visit::Visit::visit_block(&mut esc, &a.block);
+                if esc.0 {
+                    if self.escaping_async_blocks_allowed == 0 { die("R7 refuses: an async block that is not the returned future contains `?`/`return`"); }
+                    self.escaping_async_blocks_allowed -= 1;
+                }
+                let b = a.block.clone();
+                *e = syn::Expr::Block(syn::ExprBlock { attrs: vec![], label: None, block: b });
+                self.rules.insert("R7".into());
+            }
+        }
         // R7: drop `.await`
         if !self.async_projection.is_empty() {
             if let syn::Expr::Await(a) = e {
@@ -831,6 +881,20 @@ impl<'a> VisitMut for Rewriter<'a> {
             }
         }
         visit_mut::visit_expr_mut(self, e);
+        // R20 (index form): `X[i] = v` (X a plain identifier) becomes `X.set(i, v)` -- vstd's name for the same store on a Vec
+        if self.index_store {
+            if let syn::Expr::Assign(a) = e {
+                if let syn::Expr::Index(ix) = &*a.left {
+                    if let syn::Expr::Path(p) = &*ix.expr {
+                        if p.path.get_ident().is_some() {
+                            let (x, i, v) = (p.clone(), (*ix.index).clone(), (*a.right).clone());
+                            *e = syn::parse_quote!(#x.set(#i, #v));
+                            self.rules.insert("R20".into());
+                        }
+                    }
+                }
+            }
+        }
         // R20: store through a guard
         if self.deref_store {
             if let syn::Expr::Assign(a) = e {
@@ -1527,10 +1591,12 @@ fn main() {
             rules: BTreeSet::new(),
             keep_derives: spec.keep_derives.iter().cloned().collect(),
             deref_store: unit_toml.deref_store,
+            index_store: unit_toml.index_store,
             expand_map_or_else: unit_toml.expand_map_or_else,
             expand_option_combinators: unit_toml.expand_option_combinators,
             closure_method_map: unit_toml.closure_method_map.clone(),
             expand_cast_macro: unit_toml.expand_cast_macro,
+            escaping_async_blocks_allowed: 0,
             chainmap: unit_toml.chainmap.iter().map(|(k, v)| (parse_chain(k), parse_chain(v))).collect(),
         };
         let extra_attrs: Vec<syn::Attribute> = spec
